@@ -88,6 +88,7 @@ int __wrap_sigaction(int signum, const struct sigaction *sa, struct sigaction *o
 
 static int last_forked_slot = -1;
 int mt_fork_fail_next;	/* set by an extension: the next fork() of the library fails with EAGAIN */
+static int spawn_fate = -1;	/* `wspawn w0 exit N|killed N|stop`: status the next forked child reports at once */
 
 pid_t __wrap_fork(void)
 {
@@ -101,6 +102,12 @@ pid_t __wrap_fork(void)
 	i = alloc_child(-1);
 	last_forked_slot = i;
 	mt_log("FORK pid=%d\n", CH[i].pid);
+	if (spawn_fate >= 0) {	/* C11: the child changes state before fork() has even returned to the parent */
+		int st = spawn_fate;
+		spawn_fate = -1;
+		if (WIFSTOPPED(st)) CH[i].stopped = 1;
+		queue_status(&CH[i], st);
+	}
 	return CH[i].pid;
 }
 
@@ -175,6 +182,13 @@ static void h_wait(void *c, int status, const struct rusage *ru)
 }
 
 static void spawn_fn(void *cookie) { (void)cookie; }
+
+/* for white-box extensions (mt_wait.c): the iv_wait_interest behind `obj wait w<i>` */
+struct iv_wait_interest *mt_proc_wait_obj(int i);
+struct iv_wait_interest *mt_proc_wait_obj(int i)
+{
+	return (i >= 0 && i < MT_MAXO && W[i].exists == 1) ? W[i].o : NULL;
+}
 
 static int p_declare(char *kind, char *name, char *rest, int owner)
 {
@@ -264,7 +278,16 @@ static int p_action(char *op, int guard, char *a1, char *a2, char *rest)
 		if (W[i].exists != 1 || W[i].owner != mt_me() || W[i].isreg) return 1;
 		mt_log("API waitSpawn w%d\n", i);
 		last_forked_slot = -1;
+		spawn_fate = -1;
+		if (a2 != NULL) {	/* `wspawn w0 exit <code> | killed <sig> | stop` */
+			char *save = NULL;
+			char *arg = rest ? strtok_r(rest, " \t\n", &save) : NULL;
+			if (!strcmp(a2, "exit")) spawn_fate = (arg ? atoi(arg) & 0xff : 0) << 8;
+			else if (!strcmp(a2, "killed")) spawn_fate = arg ? atoi(arg) & 0x7f : SIGKILL;
+			else if (!strcmp(a2, "stop")) spawn_fate = (SIGSTOP << 8) | 0x7f;
+		}
 		r = iv_wait_interest_register_spawn(W[i].o, spawn_fn, NULL);
+		spawn_fate = -1;
 		W[i].isreg = (r == 0);
 		W[i].child = -1;
 		if (r == 0) {
